@@ -15,6 +15,7 @@ import (
 	"context"
 	"encoding/binary"
 	"encoding/hex"
+	"encoding/json"
 	"fmt"
 	"os"
 	"runtime/debug"
@@ -172,6 +173,7 @@ func value(caseID uint64, op int, field string) (string, any, []byte) {
 // ---- a case ----
 
 type world struct {
+	decoyID string // the other document of a list-input create
 	ctx     context.Context
 	out     *vc.Out
 	caseID  uint64
@@ -284,6 +286,18 @@ func (w *world) record(fs []string) {
 
 func (w *world) after() string {
 	us := w.a.drain()
+	if w.decoyID != "" {
+		// the request created a second document next to ours: its notification is not the one judged here
+		var own []event.Update
+		for _, u := range us {
+			if u.DocID != w.decoyID {
+				own = append(own, u)
+			} else {
+				w.notes = append(w.notes, u.Block)
+			}
+		}
+		us = own
+	}
 	if len(us) != 1 {
 		return fmt.Sprintf("events=%d", len(us))
 	}
@@ -314,7 +328,41 @@ func (w *world) create(isDoc bool, flds, set []string) string {
 	if len(flds) > 0 {
 		opts = append(opts, client.CreateDocWithEncryptedFields(flds))
 	}
-	if err := w.a.col.Create(w.ctx, d, opts...); err != nil {
+	hasJSON := false
+	for _, f := range set {
+		// JSON objects and integers beyond 32 bits cannot be written as GraphQL literals
+		hasJSON = hasJSON || f == "j" || f == "n" || f == "pts"
+	}
+	if w.caseID%3 == 0 && !hasJSON {
+		// through a GraphQL create with a list input: a first document that sets none of the fields, then ours
+		var gparts []string
+		for _, f := range set {
+			txt, _, _ := value(w.caseID, 0, f)
+			gparts = append(gparts, f+": "+txt)
+		}
+		args := ""
+		if isDoc {
+			args += ", encrypt: true"
+		}
+		if len(flds) > 0 {
+			args += ", encryptFields: [" + strings.Join(flds, ", ") + "]"
+		}
+		res := w.a.n.GQL(w.ctx, fmt.Sprintf(`mutation { create_Doc(input: [{}, {%s}]%s) { _docID } }`, strings.Join(gparts, ", "), args))
+		var m struct {
+			Create []struct {
+				ID string `json:"_docID"`
+			} `json:"create_Doc"`
+		}
+		if strings.HasPrefix(res, "error") || json.Unmarshal([]byte(res), &m) != nil || len(m.Create) != 2 {
+			return "error:" + strings.ReplaceAll(strings.ReplaceAll(res, " ", "_"), "\n", "_")
+		}
+		other := m.Create[0].ID
+		if other == d.ID().String() {
+			other = m.Create[1].ID
+		}
+		w.decoyID = other
+		w.out.Count("create-through-graphql-list-input")
+	} else if err := w.a.col.Create(w.ctx, d, opts...); err != nil {
 		return "error:" + strings.ReplaceAll(err.Error(), " ", "_")
 	}
 	w.doc = d
@@ -481,7 +529,10 @@ func (w *world) scan() string {
 	return fmt.Sprintf("leaks=[%s] keyleaks=%d", strings.Join(leaks, ","), keyLeaks)
 }
 
-const readQ = `{ Doc(showDeleted: true) { _docID _deleted a arr b blob j n pts } }`
+// the document of the case (a list-input create makes a second one, which is not delivered to the receivers)
+func (w *world) readQ() string {
+	return fmt.Sprintf(`{ Doc(showDeleted: true, docID: "%s") { _docID _deleted a arr b blob j n pts } }`, w.docID)
+}
 
 func (w *world) recv(withKey bool) string {
 	name := "peerB"
@@ -512,9 +563,9 @@ func (w *world) recv(withKey bool) string {
 			return "merge-error:" + strings.ReplaceAll(err.Error(), " ", "_")
 		}
 	}
-	got := p.n.GQL(w.ctx, readQ)
+	got := p.n.GQL(w.ctx, w.readQ())
 	if withKey {
-		want := w.a.n.GQL(w.ctx, readQ)
+		want := w.a.n.GQL(w.ctx, w.readQ())
 		if got == want {
 			return "same"
 		}
@@ -546,7 +597,7 @@ func (w *world) recv(withKey bool) string {
 }
 
 func (w *world) read() string {
-	got := w.a.n.GQL(w.ctx, readQ)
+	got := w.a.n.GQL(w.ctx, w.readQ())
 	// expected from what was written
 	for f, txt := range w.final {
 		var needle string
